@@ -9,7 +9,8 @@ INTS = [0, 1, -1, 2, 7, -7, 2**53, 2**53 + 1, -(2**53) - 1, I64MAX, I64MAX - 1, 
 FLOATS = [0.0, -0.0, 1.0, -1.0, 0.5, 2.5, 4.0, 4.5, -7.0, 1e300, -1e300, 5e-324,
           float(2**53), float(2**63), -float(2**63), 9007199254740993.0, 0.1, 1/3]
 FBITS = [0x7ff0000000000000, 0xfff0000000000000, 0x7ff8000000000000, 0xfff8000000000001, 0x7ff0000000000001]
-ATOMS = ["a", "b", "ab", "abc", "", "A", "a b", " a", "é", "z", "日本", "zz", "\U0001F600", "Z", "10", "9"]
+ATOMS = ["a", "b", "ab", "abc", "", "A", "a b", " a", "é", "z", "日本", "zz", "\U0001F600", "Z", "10", "9",
+         "a" * 40, "a" * 40 + "b", "a" * 39 + "b", "\u00e9" * 33 + "a"]
 
 _TXT = {}
 _EXPECT = {}
